@@ -60,6 +60,10 @@ def main(tier, write_baseline=False):
             run.add("C20/cover/reachable-without-flag/%s" % s, PROVED if ok else UNDECIDED, "rule-engine(E2)",
                     detail="cover: reachable when the flag is not assumed" if ok else "cover failed: the analysis no longer reaches this site at all (call graph lost an edge, or the site moved)")
         run.samples = [{"site": s, "guarded_by_not_dry_run": s not in guarded} for s in closure[:8]]
+    # path lemma: relative_filename only ever removes a prefix (its result is a suffix of the file name): no `..` can appear
+    from cddvc import e1
+
+    e1_refuted = e1.run_contracts(run, "contracts.C20")
     if write_baseline:
         common.write_baseline("C20", [n for n, o in run.obligations.items() if o["status"] == "proved"])
     compare_baseline(run, set(run.obligations))
@@ -82,7 +86,27 @@ def main(tier, write_baseline=False):
     first = dry_fails[0] if dry_fails else None
     for name, detail in refuted:
         run.violation(name, detail, failing_input=first, solver_output={"rule": detail})
-    if not refuted:
+    seen_ = set()
+    for o in e1_refuted:
+        if o["name"] in seen_:
+            continue
+        seen_.add(o["name"])
+        fi = common.model_replay("contracts.C20", o)
+        if fi is None:
+            # replay the claim itself on the real function: a file outside site-packages, seen from a deep working directory
+            import cdd.shared.pkg_utils as pu
+
+            cwd = os.getcwd()
+            try:
+                os.chdir("/usr/lib")
+                fn = "/tmp/some/where/else/pkg/mod.py"
+                got = pu.relative_filename(fn)
+                if not fn.endswith(got):
+                    fi = {"filename": fn, "cwd": "/usr/lib", "what": "relative_filename(%r) returned %r, which is not a suffix of the file name" % (fn, got)}
+            finally:
+                os.chdir(cwd)
+        run.violation(o["name"], "obligation refuted by %s on path %s" % (o["backend"], " ".join(o["trace"])), failing_input=fi, solver_output={"model": o["model"], "smt2": (o["smt2"] or "")[:3000]})
+    if not refuted and not e1_refuted:
         for f in fails:
             key = {"kind": f["what"].split(":")[0], "outdir_basename": f.get("outdir_basename", ""), "emit": f["emit"], "dry_run": f["dry_run"], "placement": f.get("placement", "site-packages")}
             k2 = json.dumps(key, sort_keys=True)
